@@ -5,7 +5,7 @@ Transcribes, over the POINTER STRUCTURE the C++ uses,
 
 * `tNMEA2000::tMsgHandler::tMsgHandler` / `~tMsgHandler` (NMEA2000.h),
 * `tNMEA2000::AttachMsgHandler`, `DetachMsgHandler`, `RunMessageHandlers`, `SetMsgHandler` (NMEA2000.cpp),
-* the call site of `RunMessageHandlers` in `ParseMessages`.
+* the call site of `RunMessageHandlers` in `ParseMessages` is in `Model/HandlersRx.lean` (composition with the receive path).
 
 The heap is `obj : Id → Option Obj` (`none` = no live object at that address); an object carries the three
 members `PGN`, `pNMEA2000` (`owner`) and `pNext` (`next`).  Every bus object has its `MsgHandlers` head pointer
@@ -194,25 +194,6 @@ def dispatch (w : World) (b : BusId) (pgn : Nat) : Option (Nat × List Id) :=
     match loopP w pgn (w.bound + 1) r.2 with
     | none => none
     | some l => some (if w.cb b then 1 else 0, r.1 ++ l)
-
-/-- What `SetN2kCANBufMsg` reports for one received frame, as far as the call site in `ParseMessages` cares:
-    `MsgIndex<MaxN2kCANMsgs` with a completed message of some PGN, or not. -/
-inductive RxOutcome where
-  | notReady                  -- transport-protocol control/data frame, fast-packet fragment, no slot, ...
-  | ready (pgn : Nat)         -- a message is complete (single frame, last fast-packet frame, last TP.DT packet)
-
-/-- body of the frame loop of `ParseMessages` restricted to the handlers:
-    `if (MsgIndex<MaxN2kCANMsgs) { HandleReceivedSystemMessage / ForwardMessage; RunMessageHandlers(msg); }`.
-    Whether the library consumed the message itself (`HandleReceivedSystemMessage`) has no influence. -/
-def onFrame (w : World) (b : BusId) : RxOutcome → Option (Nat × List Id)
-  | .notReady => some (0, [])
-  | .ready pgn => dispatch w b pgn
-
-/-- outcome for a frame that is a whole message unless it is a transport-protocol frame:
-    `TestHandleTPMessage` always leaves `MsgIndex=MaxN2kCANMsgs` for TP.CM (60416) and for a TP.DT (60160) packet
-    that does not complete a transfer. -/
-def loneFrame (pgn : Nat) : RxOutcome :=
-  if pgn = 60416 ∨ pgn = 60160 then .notReady else .ready pgn
 
 /-- operations of a client on handler objects and bus objects -/
 inductive Op where
